@@ -236,6 +236,29 @@ def _job(args):
     return out
 
 
+def _run_job_subprocess(job_args):
+    """Runs one job in a fresh interpreter (not a multiprocessing child), for checks whose code under
+    test behaves differently in worker processes (cogent3.util.parallel.is_master_process)."""
+    import pickle
+    import subprocess
+    import tempfile
+
+    d = tempfile.mkdtemp(prefix="job.", dir=os.path.join(ROOT, ".scratch"))
+    try:
+        fin, fout = os.path.join(d, "in.pkl"), os.path.join(d, "out.pkl")
+        with open(fin, "wb") as f:
+            pickle.dump(job_args, f)
+        p = subprocess.run([sys.executable, "-W", "ignore", "-m", "vlib.runner", "--job", fin, fout], cwd=ROOT, capture_output=True, text=True)
+        if p.returncode != 0 or not os.path.exists(fout):
+            raise HarnessError(f"job subprocess failed rc={p.returncode}: {p.stderr[-1500:]}")
+        with open(fout, "rb") as f:
+            return pickle.load(f)
+    finally:
+        import shutil
+
+        shutil.rmtree(d, ignore_errors=True)
+
+
 def shrink_signature(mod, pid, sub: Sub, tier, seed, n, sig, budget_s=240):
     """Re-run the shard that found ``sig`` with shrinking on; returns the
     minimal case seen, or None."""
@@ -302,6 +325,16 @@ def write_replay(pid, sub, sig, msg, case, committed=False):
 
 
 def main(argv=None):
+    argv = sys.argv[1:] if argv is None else argv
+    if argv and argv[0] == "--job":
+        import pickle
+
+        with open(argv[1], "rb") as f:
+            job_args = pickle.load(f)
+        out = _job(job_args)
+        with open(argv[2], "wb") as f:
+            pickle.dump(out, f)
+        return 0
     ap = argparse.ArgumentParser()
     ap.add_argument("pid")
     ap.add_argument("--tier", default=os.environ.get("VERIF_TIER", "quick"), choices=["quick", "thorough"])
@@ -390,8 +423,19 @@ def main(argv=None):
                 jobs.append((s.weight * per, (pid, s.name, a.tier, _seed_for(seed, s.name, k), per, budget, None)))
     jobs.sort(key=lambda j: -j[0])
     if jobs:
-        if a.jobs <= 1:
+        isolation = getattr(mod, "ISOLATION", "fork")
+        if a.jobs <= 1 and isolation != "subprocess":
             results = [_job(j[1]) for j in jobs]
+        elif isolation == "subprocess":
+            os.makedirs(os.path.join(ROOT, ".scratch"), exist_ok=True)
+            with cf.ThreadPoolExecutor(max_workers=max(1, min(a.jobs, len(jobs)))) as ex:
+                futs = [ex.submit(_run_job_subprocess, j[1]) for j in jobs]
+                results = []
+                for f in futs:
+                    try:
+                        results.append(f.result())
+                    except Exception:
+                        harness_errors.append("job failed: " + traceback.format_exc())
         else:
             ctx = multiprocessing.get_context("fork")
             with cf.ProcessPoolExecutor(max_workers=min(a.jobs, len(jobs)), mp_context=ctx) as ex:
